@@ -44,7 +44,7 @@ def etype(model: Model, name: str) -> EnumV:
 def probe_function(it: Interp, model: Model, arg_types: List[str], ret: str, calls: List[Any], result: Any = None) -> Inst:
     """A user-registered function with a declared signature that records what it is called with."""
     ci = model.cls("function_extensions.filter_function.FilterFunction")
-    f = it.new_inst(ci, "probe")
+    f = it.harness_inst(ci, "probe")
     f.attrs["arg_types"] = it.new_list([etype(model, t) for t in arg_types])
     f.attrs["return_type"] = etype(model, ret)
 
@@ -97,19 +97,21 @@ def well_typed(decl: str, cell: str) -> bool:
     return cell in ("true", "false") or cell.startswith("nl")
 
 
-def check_conversions(model: Model, report: Report, rule: str) -> None:
+def check_conversions(model: Model, report: Report, rule: str, only_decl: Any = None) -> None:
     ci = model.cls(FE + "FunctionExtension")
     fn = ci.find_method("evaluate")
     if fn is None:
         raise AnalysisError("anchor vanished: FunctionExtension.evaluate")
     POSITIONS = ["only"] + [f"{w}-with-{o}" for w in ("first", "second") for o in ("VALUE", "LOGICAL", "NODES")]
     for decl, cell, pos in [(d, c, p) for d in ("VALUE", "LOGICAL", "NODES") for c in ARG_CELLS for p in POSITIONS]:
+        if only_decl is not None and decl != only_decl:
+            continue
         if True:
             if not well_typed(decl, cell):
                 continue
 
             def body(it: Interp, decl=decl, cell=cell, pos=pos) -> Any:
-                env = it.new_inst(model.cls("environment.JSONPathEnvironment"), "env")
+                env = it.harness_inst(model.cls("environment.JSONPathEnvironment"), "env")
                 calls: List[Any] = []
                 marker = it.new_opaque("function-result")
                 where, _, other_type = pos.partition("-with-")
@@ -134,7 +136,7 @@ def check_conversions(model: Model, report: Report, rule: str) -> None:
                     k = cell.split(":")[1]
                     inner = it.new_sym("arg.value", [k])
                     argv = inner if cell.startswith("value:") else make_nodelist(it, model, [make_node(it, model, inner, "arg")], "arg")
-                inst = it.new_inst(ci, "call")
+                inst = it.harness_inst(ci, "call")
                 inst.attrs["token"] = it.new_opaque("token")
                 inst.attrs["name"] = Const("probe")
                 if other_type == "NODES":
@@ -146,7 +148,7 @@ def check_conversions(model: Model, report: Report, rule: str) -> None:
                 mine = expr_stub(it, model, argv, "argexpr")
                 oth = expr_stub(it, model, other, "otherexpr")
                 inst.attrs["args"] = it.new_list([mine] if where == "only" else ([mine, oth] if where == "first" else [oth, mine]))
-                c = it.new_inst(model.cls(FE + "FilterContext"), "context")
+                c = it.harness_inst(model.cls(FE + "FilterContext"), "context")
                 c.attrs.update({"env": env, "current": it.new_sym("current"), "root": it.new_sym("root")})
                 r = it.call_function(fn, [inst, c], {}, None, self_av=inst)
                 return r, calls, argv, inner, marker, it
@@ -204,7 +206,7 @@ def check_bodies(model: Model, report: Report, rule: str) -> None:
     for cell in cells:
 
         def body(it: Interp, cell=cell) -> Any:
-            f = it.new_inst(lc, "length")
+            f = it.harness_inst(lc, "length")
             arg = nothing(it, model) if cell == "nothing" else it.new_sym("arg", [cell])
             r = it.call_function(lf, [f, arg], {}, None, self_av=f)
             return r, arg, it
@@ -240,7 +242,7 @@ def check_bodies(model: Model, report: Report, rule: str) -> None:
         for cell in ("nl0", "nl1", "nlmany"):
 
             def body2(it: Interp, cell=cell, ci=ci, f_=f_) -> Any:
-                f = it.new_inst(ci, cname)
+                f = it.harness_inst(ci, cname)
                 inner = it.new_sym("node-value")
                 if cell == "nl0":
                     nl = make_nodelist(it, model, [], "arg")
